@@ -541,13 +541,16 @@ func (d *Decoder) decodeSymbolTo(v reflect.Value) error {
 	switch v.Kind() {
 	case reflect.String:
 		if val != nil {
+			if val.Text == nil {
+				return fmt.Errorf("ion: cannot decode symbol with unknown text ($%v) to string", val.LocalSID)
+			}
 			v.SetString(*val.Text)
 		}
 		return nil
 
 	case reflect.Struct:
 		if v.Type() == symbolType {
-			v.Set(reflect.ValueOf(val))
+			v.Set(reflect.ValueOf(*val))
 			return d.attachAnnotations(v)
 		}
 		return d.decodeToStructWithAnnotation(v, symbolType.Kind())
